@@ -147,36 +147,37 @@ class Facts:
                 hi += k * alo
         return lo, hi
 
-    def upper(self, l):
-        """best provable upper bound of linear form l"""
+    def upper(self, l, depth=2):
+        """best provable upper bound of linear form l: intervals, the stored bound on exactly this
+        form, or a stored fact F <= c plus a bound on the residual l - F (chained `depth` times)"""
         lo, hi = self.bounds(l)
         best = hi
-        if l.terms:
-            c = self.ub.get(l.terms)
-            if c is not None and c + l.const < best:
-                best = c + l.const
-            if len(l.terms) >= 1 and self.ub:
-                # one stored fact F <= c plus interval bound of the residual l - F
-                for k, c in self.ub.items():
-                    if k == l.terms:
-                        continue
-                    # only try facts that share an atom
-                    shares = False
-                    ks = dict(k)
-                    for a, _ in l.terms:
-                        if a in ks:
-                            shares = True
-                            break
-                    if not shares:
-                        continue
-                    f = Lin(k, 0)
-                    for mult in (1, 2):
-                        res = l.sub(f.scale(mult))
-                        if len(res.terms) >= len(l.terms) + 0 and mult == 1 and len(res.terms) > len(l.terms):
-                            continue
-                        _, rhi = self.bounds(res)
-                        if rhi + mult * c < best:
-                            best = rhi + mult * c
+        if not l.terms:
+            return best
+        c = self.ub.get(l.terms)
+        if c is not None and c + l.const < best:
+            best = c + l.const
+        if depth > 0 and self.ub:
+            mine = set(a for a, _ in l.terms)
+            for k, c in self.ub.items():
+                if k == l.terms:
+                    continue
+                shares = False
+                for a, _ in k:
+                    if a in mine:
+                        shares = True
+                        break
+                if not shares:
+                    continue
+                res = l.sub(Lin(k, 0))
+                if len(res.terms) > len(l.terms):
+                    continue
+                if depth > 1 and res.terms:
+                    rhi = self.upper(res, depth - 1)
+                else:
+                    rhi = self.bounds(res)[1]
+                if rhi + c < best:
+                    best = rhi + c
         return best
 
     def lower(self, l):
